@@ -251,6 +251,44 @@ def exhaustive_lines():
                 yield "concat %s %s %d" % (a, b, ax)
 
 
+# dims lists whose exact product is k*2^64 + r with a small r: a 64-bit overflow check that
+# is not applied after every multiplication lets them through with r elements
+WRAP64 = [([3340214413, 2761311370, 2], 4), ([2471990109, 1066043567, 7], 5), ([2977518503, 3097670771, 2], 10),
+          ([1197225396, 10827767, 1423], 20), ([1174891961, 19950191, 787], 21), ([521090446, 753197299, 47], 22),
+          ([3062868337, 3011351133, 2], 26), ([2747424317, 3357097766, 2], 28), ([1604214285, 3832975899, 3], 29),
+          ([927430618, 5607601, 3547], 30), ([3649452082, 2527330632, 2], 32), ([3160205690, 1167439457, 5], 34),
+          ([3686175818, 2502151957, 2], 36), ([3567342126, 1723668343, 3], 38), ([2993719359, 3080907370, 2], 44),
+          ([2327813863, 184290529, 43], 45), ([3660903952, 48920869, 103], 48), ([423617476, 12956191, 3361], 60),
+          ([4093957483, 169667, 26557], 61), ([13801167, 1499567, 891329], 65)]
+
+
+def wrap_lines():
+    """Constructor / resize / reshape / flatten calls whose element count wraps modulo 2^64 or 2^32 to
+    something small, and reshapes that re-cut the minibatch."""
+    out = []
+    import itertools as it
+    for dims, r in WRAP64:
+        for perm in (dims, dims[::-1], [dims[1], dims[0], dims[2]]):
+            out.append("new " + tok(perm, 1))
+            out.append("new " + tok(perm + [1], 1))
+            out.append("new " + tok([1] + perm, 2))
+        out.append("resize_dim %s 2 %d" % (tok(dims[:2] if dims[0] * dims[1] < 2 ** 32 else [dims[0]], 1), dims[2]))
+        out.append("resize_dim %s 1 %d" % (tok([dims[0]], 1), dims[1]))
+        out.append("broadcast %s 1 %d" % (tok([dims[0]], 1), dims[1]))
+        out.append("resize_batch %s %d" % (tok([dims[0]], 1), dims[1]))
+    for a, b in ((65536, 65536), (65536, 65537), (3, 1431655766), (2 ** 31, 2), (2 ** 16 + 1, 2 ** 16 - 1), (65535, 65537)):
+        out.append("resize_dim %s 1 %d" % (tok([a], 1), b))
+        out.append("resize_dim %s 2 %d" % (tok([3, a], 1), b))
+        out.append("broadcast %s 1 %d" % (tok([a], 1), b))
+        out.append("resize_batch %s %d" % (tok([a], 1), b))
+        out.append("concat %s %s 1" % (tok([a, b // 2], 1), tok([a, b - b // 2], 1)))
+    # reshape must keep the per-sample volume AND the batch: re-cuts with the same total are inadmissible
+    for (d1, b1), (d2, b2) in (([6], 2), ([4], 3)), (([6], 2), ([3], 4)), (([12], 1), ([4], 3)), (([12], 1), ([3], 4)), (([2, 3], 4), ([4, 3], 2)), \
+                              (([4], 3), ([12], 1)), (([4], 3), ([6], 2)), (([6], 2), ([6], 2)), (([6], 2), ([2, 3], 2)), (([6], 2), ([3, 2], 1)), (([6], 1), ([3, 2], 2)):
+        out.append("reshape %s %s" % (tok(list(d1), b1), tok(list(d2), b2)))
+    return out
+
+
 def batch_rule_lines():
     """Every rule with several operands x every assignment of batch sizes in {1,2,3}
     (equal-or-1 is admissible, anything else must be rejected), 2-4 operands for the
@@ -297,7 +335,7 @@ def run(chk):
             seen.add(l); lines.append(l)
     corpus = [l.strip() for l in open(build.VERIF + "/corpus/shape.ops")] if __import__("os").path.exists(build.VERIF + "/corpus/shape.ops") else []
     lines = [l for l in corpus if l and not l.startswith("#")] + lines
-    for l in batch_rule_lines():
+    for l in batch_rule_lines() + wrap_lines():
         if l not in seen:
             seen.add(l); lines.append(l)
     if not quick:
@@ -356,10 +394,16 @@ def classify(line, impl, spec):
     return "shape:%s:%s:%s" % (op, cls, line)
 
 
-def run_batch_rules(chk, prefix="shape"):
+def run_batch_rules(chk, prefix="shape", extra_random=0):
     """Batch-compatibility of every multi-operand shape rule on the real library vs the
     specification (used by C03 and C10)."""
-    lines = batch_rule_lines()
+    lines = batch_rule_lines() + wrap_lines()
+    if extra_random:
+        seen = set(lines)
+        for i in range(extra_random):
+            l = gen_line(chk.rng, big=True)
+            if l not in seen:
+                seen.add(l); lines.append(l)
     spec = dict(zip(lines, vrun.run_model("shapespec", lines)))
 
     def judge(line, impl, model):
